@@ -22,6 +22,7 @@ import (
 	"io"
 	"os"
 	"path/filepath"
+	"runtime"
 	"sort"
 	"strconv"
 	"strings"
@@ -1098,6 +1099,11 @@ func c28(c *Ctx) {
 		"search: builtins × ≤5 odd arguments (also in functions, loops, subshells, pipelines, repeated calls), grammar-generated and " +
 		"mutated programs (seeds: runTests of interp/interp_test.go) in bash/posix/mksh/zsh/bats, New/Params option lists; " +
 		"non-trivial = the program parsed and ran at least one statement (search) or had ≥1 argument (tie); distinct by exact input"
+	if c.Shards > 1 {
+		runtime.GOMAXPROCS(2) // 16 shards × (harness + 2 workers): do not oversubscribe the machine
+	} else {
+		runtime.GOMAXPROCS(4)
+	}
 	base := os.Getenv("VERIF_WORK")
 	if base == "" {
 		base = c.Out
